@@ -67,7 +67,7 @@ M("c06-empty-ni-two-replies","C06",S,"\t\t\t\t}},\n\t\t\t}\n\t\t\tcontinue\n\t\t
 M("c06-failed-stays-held","C06",R,"\t\tr.rmPending(op.GetId())\n\t\t*fails = append(*fails, &OpResult{","\t\t*fails = append(*fails, &OpResult{","ONE-VERDICT")
 M("c06-fib-unconditional","C06",S,"\t\tif fibACK {\n\t\t\tresults = append(results, &spb.AFTResult{\n\t\t\t\tId:     ok.ID,\n\t\t\t\tStatus: spb.AFTResult_FIB_PROGRAMMED,\n\t\t\t})\n\t\t}","\t\tresults = append(results, &spb.AFTResult{\n\t\t\tId:     ok.ID,\n\t\t\tStatus: spb.AFTResult_FIB_PROGRAMMED,\n\t\t})","RESULT-MAPPING")
 M("c06-fail-answered-with-op-id","C06",S,"\t\t\tId:     fail.ID,","\t\t\tId:     op.Id,","RESULT-MAPPING")
-M("c06-err-and-result","C06",S,"\t\tcase err != nil:\n\t\t\terrCh <- err\n\t\tdefault:\n\t\t\tresCh <- res\n\t\t}","\t\tcase err != nil:\n\t\t\terrCh <- err\n\t\t\tresCh <- res\n\t\tdefault:\n\t\t\tresCh <- res\n\t\t}","EXACTLY-ONE-REPLY")
+M("c06-err-and-result","C06",S,"\t\t\terrCh <- err\n\t\t\treturn false\n\t\tdefault:\n\t\t\tresCh <- res\n\t\t}","\t\t\terrCh <- err\n\t\t\tresCh <- res\n\t\t\treturn false\n\t\tdefault:\n\t\t\tresCh <- res\n\t\t}","EXACTLY-ONE-REPLY")
 N("c06-n-rename-loop-var","C06",S,"\tfor _, o := range ops {\n\t\tni := o.GetNetworkInstance()","\tfor _, o := range ops {\n\t\tni := o.NetworkInstance",note="getter → field access")
 
 # ---------------- C07
@@ -198,6 +198,12 @@ M("c19-add-too-small","C19","compliance/election.go","\tdefer electionID.Add(2)"
 N("c19-n-explicit-flush","C19","compliance/mpls.go","\tdefer flushServer(c, t)","\tdefer func() { flushServer(c, t) }()",note="deferred closure calling flushServer")
 
 # ---------------- round 3 rules
+M("c02-probe-wrong-option-type","C02",R,"func hasDisableCheckFn(opt []RIBOpt) bool {\n\tfor _, o := range opt {\n\t\tif _, ok := o.(*disableCheckFn); ok {","func hasDisableCheckFn(opt []RIBOpt) bool {\n\tfor _, o := range opt {\n\t\tif _, ok := o.(*disableForwardRef); ok {","OPTION-PROBES",note="disallowing forward references also switches the gate off")
+M("c02-probe-any-option","C02",R,"func hasDisableForwardRef(opt []RIBOpt) bool {\n\tfor _, o := range opt {\n\t\tif _, ok := o.(*disableForwardRef); ok {\n\t\t\treturn true\n\t\t}\n\t}","func hasDisableForwardRef(opt []RIBOpt) bool {\n\tfor _, o := range opt {\n\t\tif _, ok := o.(*disableForwardRef); ok || o != nil {\n\t\t\treturn true\n\t\t}\n\t}","OPTION-PROBES")
+M("c02-server-option-miswired","C02",S,"\tif hasWithNoRIBForwardReferences(opt) {\n\t\tribOpt = append(ribOpt, rib.DisableForwardReferences())","\tif hasWithNoRIBForwardReferences(opt) {\n\t\tribOpt = append(ribOpt, rib.DisableRIBCheckFn())","SERVER-WIRING")
+M("c16-hook-probe-first-option-only","C16",S,"func hasPostChangeRIBHook(opt []ServerOpt) *postChangeRibHook {\n\tfor _, o := range opt {\n\t\tif v, ok := o.(*postChangeRibHook); ok {\n\t\t\treturn v\n\t\t}\n\t}","func hasPostChangeRIBHook(opt []ServerOpt) *postChangeRibHook {\n\tfor _, o := range opt {\n\t\tif v, ok := o.(*postChangeRibHook); ok {\n\t\t\treturn v\n\t\t}\n\t\treturn nil\n\t}","OPTION-PROBES",note="the hook is only found when it is the first option")
+M("c16-vrfs-only-with-hook","C16",S,"\tif vrfs := hasWithVRFs(opt); vrfs != nil {\n\t\tfor _, n := range vrfs {","\tif vrfs := hasWithVRFs(opt); vrfs != nil && hasPostChangeRIBHook(opt) != nil {\n\t\tfor _, n := range vrfs {","SERVER-WIRING")
+N("c16-n-hook-probe-into-local","C16",S,"\tif v := hasPostChangeRIBHook(opt); v != nil {\n\t\ts.masterRIB.SetPostChangeHook(v.fn)\n\t}","\thook := hasPostChangeRIBHook(opt)\n\tif hook != nil {\n\t\ts.masterRIB.SetPostChangeHook(hook.fn)\n\t}",note="probe answer held in a local")
 M("c10-wait-for-producer-before-stop","C10",S,"\tvar done bool\n\n\tfor !done {","\tvar done bool\n\tdefer func() {\n\t\tif !done {\n\t\t\t<-doneCh\n\t\t}\n\t}()\n\n\tfor !done {","STOP-SIGNAL",note="deferred wait declared after the deferred close runs before it")
 N("c10-n-close-in-closure","C10",S,"\tdefer close(stopCh)\n","\tdefer func() { close(stopCh) }()\n",note="deferred closure closing the stop channel")
 M("c17-mpls-index-unguarded","C17",K,"\t\t\tif _, ok := v.Mpls.GetLabel().(*aftpb.Afts_LabelEntryKey_LabelUint64); ok {\n\t\t\t\tni.mpls[v.Mpls.GetLabelUint64()] = r\n\t\t\t}","\t\t\tif v.Mpls != nil {\n\t\t\t\tni.mpls[v.Mpls.GetLabelUint64()] = r\n\t\t\t}\n\t\t\tvar _ *aftpb.Afts","GET-ENTRIES-LOOKUP")
